@@ -289,7 +289,8 @@ def wallet_addresses(n):
     (reference side; the wallet under test derives its own from the extended public key)."""
     if n not in _WALLET:
         account = Account.from_dict(_Bare(), Wallet(), {'seed': SEED, 'address_generator': {'name': 'deterministic-chain'}})
-        _WALLET[n] = ([account.receiving.get_public_key(i).address for i in range(n)], account.public_key.extended_key_string())
+        _WALLET[n] = ([account.receiving.get_public_key(i).address for i in range(n)], account.public_key.extended_key_string(),
+                      [account.change.get_public_key(i).address for i in range(3)])
     return _WALLET[n]
 
 
@@ -300,7 +301,7 @@ class _Bare(StubLedger):
         self.db = None
 
 
-def build_world(spec, addresses):
+def build_world(spec, addresses, change=()):
     """Real raw transactions for the chosen shape.  spec: list of (source, [destinations]); source -1 = an outpoint the wallet
     knows nothing about, otherwise the index of an earlier wallet-owned, still unspent output in `owned`; destination d <
     len(addresses) pays that wallet address, len(addresses) a foreign key hash, len(addresses)+1 a foreign script hash."""
@@ -331,6 +332,10 @@ def build_world(spec, addresses):
                 tx.add_outputs([Output.pay_pubkey_hash(amount, Ledger.address_to_hash160(addresses[d]))])
                 touch.append(addresses[d])
                 owned.append((k, len(tx.outputs) - 1, addresses[d]))
+            elif d == CHANGE0:
+                tx.add_outputs([Output.pay_pubkey_hash(amount, Ledger.address_to_hash160(change[0]))])
+                touch.append(change[0])
+                owned.append((k, len(tx.outputs) - 1, change[0]))
             elif d == FOREIGN_KEY:
                 tx.add_outputs([Output.pay_pubkey_hash(amount, bytes([0x70 + k]) * 20)])
             else:
@@ -341,12 +346,13 @@ def build_world(spec, addresses):
         parents.append(par)
         touches.append(touch)
     unspent = [(txids[k], pos, addr, txs[k].outputs[pos].amount) for i, (k, pos, addr) in enumerate(owned) if i not in spent]
-    return dict(raws=raws, txids=txids, parents=parents, touches=touches, owned=owned, spent=spent, unspent=unspent,
+    return dict(change=list(change), raws=raws, txids=txids, parents=parents, touches=touches, owned=owned, spent=spent, unspent=unspent,
                 amounts=[[o.amount for o in tx.outputs] for tx in txs])
 
 
 N_DEST = 3          # receiving addresses 0..2 may be paid; 2 lies beyond the initial gap
 FOREIGN_KEY, FOREIGN_SCRIPT = N_DEST, N_DEST + 1
+CHANGE0 = N_DEST + 2      # the first address of the change chain (change gap 1)
 
 
 def choose_world(vm, n_tx, first_rich, two_inputs=True):
@@ -398,12 +404,14 @@ def expected_view(world, server, addresses):
         if last_used + 1 + GAP <= known:
             break
         known = last_used + 1 + GAP
-    spent_owned = set()
-    for k in range(server.n):
-        pass
+    change = world.get('change', [])
+    known_change = 1
+    while known_change <= len(change) and change[known_change - 1] in used:
+        known_change += 1                            # change gap 1: one unused address follows the last used one
+    reachable = list(addresses[:known]) + list(change[:known_change])
     utxos = {}
     for i, (k, pos, addr) in enumerate(world['owned']):
-        if k >= server.n or addr not in addresses[:known]:
+        if k >= server.n or addr not in reachable:
             continue
         spender = None
         for j in range(server.n):
@@ -412,7 +420,7 @@ def expected_view(world, server, addresses):
                 spender = j
         if spender is None:
             utxos[(world['txids'][k], pos)] = world['amounts'][k][pos]
-    return known, utxos
+    return known, utxos, known_change
 
 
 # ------------------------------------------------------------------------------------------------ the scenario
@@ -452,7 +460,7 @@ class SeqSched:
 
 
 def first_addresses(vm, account):
-    vm.await_(account.receiving.ensure_address_gap())
+    vm.await_(account.ensure_address_gap())
 
 
 def new_sched(vm, race):
@@ -464,11 +472,11 @@ def sync(vm, spec, race, grain, duplicate, first_rich=False, stages=2, preempt=N
     VM[0] = vm
     GRAIN[0] = grain
     PREEMPT[0] = preempt
-    addresses, xpub = vm.wallet_addresses(N_DEST + 2 * GAP)
+    addresses, xpub, change = vm.wallet_addresses(N_DEST + 2 * GAP)
     if isinstance(spec, int):
         spec = choose_world(vm, spec, first_rich)
     n_tx = len(spec)
-    world = vm.build_world(spec, addresses)
+    world = vm.build_world(spec, addresses, change)
     world['spends'] = [s for s, _ in spec]
     n1 = 1 + vm.pick('stage1_txs', n_tx) if stages == 2 else n_tx
     c1 = vm.pick('stage1_confirmed', n1 + 1)
@@ -547,7 +555,8 @@ def next_stage(vm, server, network, ledger, results, n, confirmed):
 
 
 def compare(vm, world, server, addresses, db, account, ledger, results):
-    known, utxos = expected_view(world, server, addresses)
+    known, utxos, known_change = expected_view(world, server, addresses)
+    change = world.get('change', [])
     for r in results:
         if r is not True:
             return 'VIOLATION: update_history reported the address out of sync'
@@ -564,7 +573,10 @@ def compare(vm, world, server, addresses, db, account, ledger, results):
         if DEBUG:
             print('generated', generated, 'expected', addresses[:known], 'known', known)
         return 'VIOLATION: other addresses generated than the chain prescribes'
-    for a in addresses[:known]:
+    generated_change = vm.await_(account.change.get_addresses())
+    if sorted(generated_change) != sorted(change[:known_change]):
+        return 'VIOLATION: the change chain does not hold exactly the addresses up to last used + gap'
+    for a in list(addresses[:known]) + list(change[:known_change]):
         if a not in ledger.network.subscribed:
             return 'VIOLATION: a generated address is not subscribed'
         want = ''.join('%s:%d:' % item for item in server.history(a))
@@ -575,7 +587,7 @@ def compare(vm, world, server, addresses, db, account, ledger, results):
     for k in range(server.n):
         reachable = False
         for a in world['touches'][k]:
-            if a in addresses[:known]:
+            if a in addresses[:known] or a in change[:known_change]:
                 reachable = True
         if reachable:
             row = db.db.conn.execute('select height from tx where txid=?', (world['txids'][k],)).fetchone()
@@ -646,6 +658,8 @@ SHAPES = {
     'spend-both-outputs': [(-1, [0, 1]), ((0, 1), [FOREIGN_KEY])],
     # fund, spend to a stranger with change to the wallet, spend the change
     'change-chain': [(-1, [0]), (0, [FOREIGN_KEY, 1]), (1, [FOREIGN_KEY])],
+    # fund, pay a stranger with change to the wallet's change chain, spend the change
+    'to-change-chain': [(-1, [0]), (0, [FOREIGN_KEY, CHANGE0]), (1, [FOREIGN_KEY])],
     # two payments to one address
     'same-address-twice': [(-1, [0]), (-1, [0])],
 }
@@ -685,6 +699,7 @@ def jobs(tier):
     if tier == 'quick':
         seq(2, False, None)
         seq_shape('spend-both-outputs')
+        seq_shape('to-change-chain')
         race('spend-to-own', 0, False, 1, 1)
         race('beyond-gap', 0, False, 1, 1)
         race('same-address-twice', 1, False, 2, 2, True)
@@ -692,6 +707,7 @@ def jobs(tier):
         seq(2, True)
         seq(3, 'fixed', None)
         seq_shape('spend-both-outputs')
+        seq_shape('to-change-chain')
         for shape in ('spend-to-own', 'two-addresses', 'spend-both-outputs'):
             race(shape, 0, True, 2, 2)
         for shape in ('beyond-gap', 'change-chain'):
@@ -759,12 +775,24 @@ def _no_address_lock(node):
     return False
 
 
+def _always_receiving_manager(node):
+    """get_address_manager_for_address answers with the receiving chain whatever chain the address is on."""
+    import ast
+    for n in ast.walk(node):
+        if isinstance(n, ast.Return) and n.value is not None and 'address_managers' in ast.unparse(n.value):
+            n.value = ast.parse('account.receiving', mode='eval').body
+            return True
+    return False
+
+
 _SEQ2 = dict(family='seq', fn='sync', args=(2, None, 0, False, False), loop_bound=2000, max_depth=80)
 CANARIES = [
     dict(name='same-batch-spend-not-linked', target='lbry.wallet.ledger:Ledger._sync', mutate=_no_pending_resolution, job=_SEQ2),
     dict(name='gap-not-maintained', target='lbry.wallet.ledger:Ledger.update_history', mutate=_no_gap_maintenance, job=_SEQ2),
     dict(name='height-change-not-synced', target='lbry.wallet.ledger:Ledger.update_history', mutate=_height_ignored_when_diffing, job=_SEQ2),
     dict(name='received-outputs-not-recorded', target='lbry.wallet.database:Database._transaction_io', mutate=_only_my_inputs_recorded, job=_SEQ2),
+    dict(name='change-chain-gap-not-maintained', target='lbry.wallet.ledger:Ledger.get_address_manager_for_address', mutate=_always_receiving_manager,
+         job=dict(family='seq', fn='sync', args=(SHAPES['to-change-chain'], False, 0, False), loop_bound=2000, max_depth=80)),
     dict(name='no-address-lock', target='lbry.wallet.ledger:Ledger.update_history', mutate=_no_address_lock,
          job=dict(family='race', fn='sync', args=(SHAPES['same-address-twice'], True, 1, False, False, 2, 2, True), loop_bound=2000, max_depth=80)),
 ]
